@@ -74,6 +74,56 @@ Proof. apply rstrip_by_len. Qed.
 Lemma rstrip_cr_lenN s : lenN (rstrip_cr s) <= lenN s.
 Proof. unfold lenN. pose proof (rstrip_cr_len s). lia. Qed.
 
+(* ---- the measured length of a lax line *)
+Lemma ends_cr_len s : ends_cr s = true -> (1 <= length s)%nat.
+Proof. destruct s; [discriminate|]. cbn [length]. lia. Qed.
+
+Lemma len1_le s : len1 s <= lenN s.
+Proof. unfold len1. destruct (ends_cr s); lia. Qed.
+
+Lemma lenN_le_len1 s : lenN s <= len1 s + 1.
+Proof. unfold len1. destruct (ends_cr s) eqn:E; [|lia]. apply ends_cr_len in E. unfold lenN. lia. Qed.
+
+Lemma rstrip_cr_ends s : ends_cr s = true -> (length (rstrip_cr s) + 1 <= length s)%nat.
+Proof.
+  unfold rstrip_cr. induction s as [|c s IH]; [discriminate|].
+  cbn [ends_cr rstrip_by]. destruct s as [|d s'].
+  - intros ->. cbn. lia.
+  - intro H. specialize (IH H).
+    destruct (rstrip_by (fun c0 : N => c0 =? 13) (d :: s')) as [|r0 r]; [destruct (c =? 13); cbn [length] in *; lia|].
+    cbn [length] in *. lia.
+Qed.
+
+(* the stored line (every trailing CR removed) is never longer than its measured length *)
+Lemma rstrip_cr_le_len1 s : lenN (rstrip_cr s) <= len1 s.
+Proof.
+  unfold len1. destruct (ends_cr s) eqn:E.
+  - apply rstrip_cr_ends in E. unfold lenN. lia.
+  - apply rstrip_cr_lenN.
+Qed.
+
+Lemma len1_app_ge x y : len1 x <= len1 (x ++ y).
+Proof.
+  destruct y as [|c y]; [rewrite app_nil_r; lia|].
+  pose proof (lenN_le_len1 (x ++ c :: y)) as H. pose proof (len1_le x) as H2.
+  rewrite lenN_app, lenN_cons in H. lia.
+Qed.
+
+(* a buffer without LF: the line found after appending data starts with that buffer *)
+Lemma split_byte_none_app_prefix sep : forall ct d l r,
+  split_byte sep ct = None -> split_byte sep (ct ++ d) = Some (l, r) -> exists pre, l = ct ++ pre.
+Proof.
+  induction ct as [|c ct IH]; intros d l r Hn Hs; [exists l; reflexivity|].
+  cbn [app split_byte] in *. destruct (c =? sep); [discriminate|].
+  destruct (split_byte sep ct) as [[l0 r0]|] eqn:E; [discriminate|].
+  destruct (split_byte sep (ct ++ d)) as [[l1 r1]|] eqn:E2; [|discriminate]. inversion Hs; subst.
+  destruct (IH d l1 r eq_refl E2) as [pre ->]. exists pre. reflexivity.
+Qed.
+
+Lemma find_lf_none_app_prefix ct d l r :
+  find_lf ct = None -> find_lf (ct ++ d) = Some (l, r) -> exists pre, l = ct ++ pre.
+Proof. apply split_byte_none_app_prefix. Qed.
+
 (* events *)
 Lemma rev_data_app a b evs : rev_data (a ++ b) evs = rev_data b (rev_data a evs).
 Proof. destruct evs as [|m r]; [reflexivity|]. cbn. now rewrite app_assoc. Qed.
